@@ -40,11 +40,54 @@ def ctx_printed(out, tag):
     return [m.group(1) for m in re.finditer(r'^<<"%s", (.*)>>\s*$' % re.escape(tag), out, re.M)]
 
 
+def two_savers(ctx, fut_unique, fut_shared):
+    """overlapping saves of one handle: LocalSaveTwo.tla (unique temporary names hold, shared name refuted) enumerates
+    the interleavings, the Go driver replays them into the real Local.Save, LocalSaveTwoProps!RecOK judges the records"""
+    r = fut_unique.result()
+    design = [{"cfg": "two_savers_unique_temp", "states": r["states"], "transitions": r["transitions"], "result": "holds"}]
+    chunks = int(re.search(r"\bChunks = (\d+)", open(os.path.join(verif.SPEC, "LocalSaveTwo_unique.cfg")).read()).group(1))
+    scheds = sorted({tuple(int(x) for x in re.findall(r"\d+", m.group(1)))
+                     for m in re.finditer(r'^<<"SCHED2", <<(.*?)>>>>\s*$', r["out"], re.M)})
+    if not scheds:
+        raise verif.MachineryError("LocalSaveTwo produced no schedules, see %s" % r["dir"])
+    t = fut_shared.result()
+    if "NoPartialFinal" not in t["violated"]:
+        raise verif.MachineryError("negative twin 'shared temporary name' was not refuted (got %s)" % t["violated"])
+    design.append({"cfg": "two_savers_shared_temp", "states": t["states"], "transitions": t["transitions"], "result": "refuted: NoPartialFinal"})
+    vec = os.path.join(ctx.work, "two_schedules.ndjson")
+    with open(vec, "w") as fh:
+        for s in scheds:
+            fh.write(json.dumps({"sched": list(s), "chunks": chunks}) + "\n")
+    out = ctx.go_test("internal/backend/local", "^TestVerif_C36_Two$", timeout=1500, env={"VERIF_VECTORS": vec})
+    n, bad, lines = ctx.check_records("LocalSaveTwoProps", os.path.join(out, "recs_two.ndjson"), shard=2000)
+    seen = set()
+    for i in bad:
+        rec = json.loads(lines[i - 1])
+        o = next((o for o in rec["obs"] if o["final"] == "partial" or o["others"]), None)
+        if o is None:
+            raise verif.MachineryError("LocalSaveTwoProps rejected a record without a failing observation: %s" % lines[i - 1][:300])
+        key = "local-save/overlapping-saves/%s" % ("partial-final" if o["final"] == "partial" else "temporary-file-listed")
+        if key in seen:
+            continue
+        seen.add(key)
+        names = {0: "opens its temporary file", 1: "writes a chunk", 2: "finishes (sync, close, rename)", 3: "is aborted by a reader error"}
+        ctx.violate(key, "two overlapping saves of one %s file, steps %s: after saver %d %s (Save result %r) the final name holds %d bytes of which the first %d are correct (payload %d bytes); %d other repository files listed" % (
+            rec["type"], rec["sched"], o["step"] // 10, names[o["step"] % 10], o["ret"], o["size"], o["prefix"], chunks * 12288, o["others"]), rec)
+    res = ctx.go_results[-1]
+    return {"design": design, "schedules": len(scheds), "records": n, "rejected": len(bad),
+            "distinct_nontrivial": res.get("distinct_nontrivial", 0), "counters": res.get("counters", {}),
+            "samples": verif.samples_from(lines, 1)}
+
+
 def run(ctx):
-    with cf.ThreadPoolExecutor(max_workers=7) as ex:
+    with cf.ThreadPoolExecutor(max_workers=9) as ex:
         futs = [ex.submit(design_one, ctx, v) for v in ["ok"] + sorted(TWINS)]
+        fu = ex.submit(ctx.tlc, "LocalSaveTwo", cfg="LocalSaveTwo_unique.cfg", workers=1, name="two_unique", timeout=900)
+        fs = ex.submit(ctx.tlc, "LocalSaveTwo", cfg="LocalSaveTwo_shared.cfg", workers=1, name="two_shared", timeout=900, allow_violation=True)
         out = ctx.go_test("internal/backend/local", "^TestVerif_C36$", timeout=3000)
         des = [f.result() for f in futs]
+    two = two_savers(ctx, fu, fs)
+    des += two["design"]
     recs_path = os.path.join(out, "recs.ndjson")
     lines = open(recs_path).read().splitlines()
     if not lines:
@@ -116,10 +159,12 @@ def run(ctx):
            "records_kill": cnt.get("records_kill", 0), "records_save": cnt.get("records_save", 0),
            "violating_crash_states_reported_by_tlc": len(bad),
            "invariants_evaluated_in_every_crash_state": ["Rep_NoPartialFinal", "Rep_NoTempListed", "Rep_Live", "Rep_Kill"],
+           "overlapping_saves": {k: two[k] for k in ("schedules", "records", "rejected", "distinct_nontrivial", "counters", "samples")},
            "binding_control": "Rep_Bind: directory left by the real code == model state after the observed calls (every record)"}
     return verif.finish(ctx, "model_checking", cov, [
         "file system model (LocalSave.tla): an un-fsynced write may be lost, kept or torn; an un-fsynced create/rename/unlink may be lost or kept, independently per name; fsync(file) makes content durable, fsync(dir) its entries; the file system does not reorder beyond these rules",
         "the system call sequence is observed with strace -f on the real local.Save (Linux, ext4); calls touching the repository directory are translated 1:1, unknown ones stop the check (exit 2)",
         "content is abstracted to (size, length of the correct prefix); bytes are compared on the real directory after the save / after the kill",
         "file systems without fsync support (ENOTSUP is ignored by design) are outside the premise; injected errors are EIO/ENOSPC/EACCES/... per call",
+        "overlapping saves: two Save calls of the same handle with the same content (restic never saves different data under one name) in one process, no crash; every interleaving of {open temp, write chunk 1, write chunk 2, finish | abort} of the two calls (LocalSaveTwo.tla, 526 schedules) is enforced with parking readers and the live directory is read after every step",
         "temporary file = any file in a listed directory other than the final name; 'appears as a repository file' = the real List reports it and its name is a well-formed repository file name"])
